@@ -13,7 +13,9 @@
      [ho_crate] : iteration order of the per-crate import set (resolve_renamed's first matching import,
                   reconcile.rs:178; the loop of used_imports, mod.rs:461 - whose result no longer depends on
                   it since the wildcard branch creates its entry, mod.rs:473; only the fallback's choice is
-                  left, and that goes through [hc])
+                  left, and that goes through [hc]; the set used_imports iterates over is the one
+                  reconcile_aliases REBUILDS with the serde-renamed names, reconcile.rs:71 - a new HashSet
+                  with an order of its own, which for the same reason needs no oracle)
      [hc]       : iteration order of CrateTypes = HashMap<CrateName, HashSet<TypeName>>
                   (the fallback's `.next()`, mod.rs:444)
    An oracle is any function list -> list; the real program realises some permutation. *)
@@ -65,14 +67,8 @@ Definition IGNORED_BASE_CRATES : list str :=
 
 Definition GLOB : str := lit "*".
 
-(* HashSet<ImportedType> as a duplicate-free list (insertion order kept, set semantics) *)
-Definition imp_eqb (a b : imported) : bool :=
-  str_eqb (base_crate a) (base_crate b) && str_eqb (type_name a) (type_name b).
-Definition imp_mem (x : imported) (l : list imported) : bool := existsb (imp_eqb x) l.
-Definition imp_insert (x : imported) (l : list imported) : list imported :=
-  if imp_mem x l then l else l ++ [x].
-Definition imp_extend (l : list imported) (xs : list imported) : list imported :=
-  fold_left (fun acc x => imp_insert x acc) xs l.
+(* HashSet<ImportedType> as a duplicate-free list: imp_eqb / imp_mem / imp_insert / imp_extend of Model/Reconcile.v
+   (reconcile_aliases rebuilds the per-crate import set) *)
 
 Definition with_imports (pd : parsed) (im : list imported) : parsed :=
   {| p_structs := p_structs pd; p_enums := p_enums pd; p_aliases := p_aliases pd; p_consts := p_consts pd;
